@@ -599,7 +599,8 @@ func (s *Scheme) prepareSigning(membership *membership, parties []PartyID, topic
 	}, func(m interface{}, from uint16) {
 		msg := m.(*rbcMsg)
 		s.Logger.Debugf("Got round %d message from %d", msg.round, from)
-		signingProtocol.OnMsg(msg.payload, from, msg.broadcast)
+		sourceParty := uint16(membership.partyIDByUniversalID(UniversalID(from)))
+		signingProtocol.OnMsg(msg.payload, sourceParty, msg.broadcast)
 	}, len(signers))
 
 	rbc = &rbcFilter{
@@ -630,7 +631,13 @@ func (s *Scheme) initializeDKG(dkg KeyGenerator, threshold int, members []Univer
 
 	dkgTopicHash := hash([]byte(DkgTopicName))
 
-	dkg.Init(universalIDsToUInts(members), threshold, func(msg []byte, isBroadcast bool, to uint16) {
+	// The MPC backend works with party identifiers
+	parties, err := membership.partyIDsByUniversalIDs(members)
+	if err != nil {
+		return err
+	}
+
+	dkg.Init(partyIDsToUInts(parties), threshold, func(msg []byte, isBroadcast bool, to uint16) {
 		var payload []byte
 		payload = append(payload, 255)
 		payload = append(payload, msg...)
